@@ -225,7 +225,7 @@ Lemma xi_ARwPost : forall s j, XI s -> PXI s (do_action s (ARwPost j)).
 Proof.
   intros s j X. cbn [do_action]. dm; [|apply PXI_same; exact X]. unfold PXI. cbn [ARes]. unfold raw_post.
   match goal with |- context [let '(k1, _) := ?W in _] => assert (KS : clock (fst W) = clock (kern s)); [|destruct W as [k1 x]] end.
-  { destruct (efd_raw _ =? 0); apply ksame_write. }
+  { destruct (raw_is_pipe _ _); apply ksame_write. }
   cbn [fst] in KS. apply (xi_plain_act _ (ARwPost j) _ X); try reflexivity. exact KS.
 Qed.
 Lemma xi_log : forall s a, XI s -> evq (TAct a) -> PXI s (R (emit s (TAct a))).
